@@ -1021,6 +1021,11 @@ func TestC14(t *testing.T) {
 				}
 			}
 		}
+		if round%3 == 2 {
+			// the zero-hash table is installed again (same function, same depth) between hashing
+			// the ancestor and forking it: live trees stay as they are, hashed stays hashed
+			tree.InitZeroHashes(tree.Hash, 64)
+		}
 		workers := 2 + g.r.Intn(15)
 		type result struct {
 			ops []hop
